@@ -294,9 +294,24 @@ def c04_key(inp):
     return "elements:" + ",".join(sorted(d))
 
 
-def check_c18(rows, stats, n_inputs):
-    """Statistics vs rows (valid-row workloads only)."""
+def pipeline_accepts(s):
+    """A row the pipeline can process at all: a string with exactly one '>>' whose sides parse
+    (an empty side parses). Everything else is a malformed row that is only passed through."""
+    sp = split_rsmi(s)
+    if sp is None:
+        return False
+    try:
+        return all(Chem.MolFromSmiles(x) is not None for x in sp)
+    except Exception:
+        return False
+
+
+def check_c18(rows, stats, n_inputs, processed=None):
+    """Statistics vs rows. `processed[i]` False marks a malformed input row (never reaches any stage)."""
     out = []
+    if processed is not None:
+        all_rows = rows
+        rows = [r for r, ok in zip(all_rows, processed) if ok]
     if stats is None:
         return [V("C18", "no_stats", "none", "no statistics returned")]
     need = ["reaction_cnt", "balanced_cnt", "rb_applied", "rb_solved", "mcs_applied", "mcs_solved", "confident_cnt"]
